@@ -48,9 +48,7 @@ def frameOps (fx : Bool) (ws : List String) : Option String :=
     | some d => some (FrameCrash.deepOutcome fx what d)
     | none => some "bad-op"
   | ["prim", name] =>
-    some (match FrameCrash.sourceFacts.find? (fun p => p.1 == name) with
-      | some p => p.2
-      | none => "absent")
+    some (FrameCrash.sourceFact fx name)
   | ["falloc", proto, flags, op, h] =>
     -- allocation class of one parse: the model counts the `make`/`string` calls sized from the wire
     match proto.toNat?, flags.toNat?, op.toNat?, bytes h with
